@@ -27,8 +27,8 @@ func init() {
 // version of the same address, a deletion request of A naming e0 by id or by address, or
 // a regular event; all created_at symbolic; capacity 1..3.
 type vpC15State struct {
-	all, sel []*Event
-	n        int
+	all, sel, two []*Event
+	n             int
 }
 
 func vpC15Event(i int, d string) *Event {
@@ -53,8 +53,11 @@ func vpC15Event(i int, d string) *Event {
 var vpC15Sel = []*ReqFilter{{Authors: []string{"A"}, Kinds: []int64{30000}}}
 var vpC15All = []*ReqFilter{{}}
 
+// a filter list: one query, one moment (a store change between its members must not show)
+var vpC15Two = []*ReqFilter{{Kinds: []int64{30000}}, {Kinds: []int64{5, 1}}}
+
 func vpC15Observe(c *EventCache) vpC15State {
-	return vpC15State{all: c.Find(vpC15All), sel: c.Find(vpC15Sel), n: c.Len()}
+	return vpC15State{all: c.Find(vpC15All), sel: c.Find(vpC15Sel), two: c.Find(vpC15Two), n: c.Len()}
 }
 
 func vpH_C15_schedules() {
@@ -104,6 +107,7 @@ func vpH_C15_schedules() {
 		defer wg.Done()
 		seen.all = c.Find(vpC15All)
 		seen.sel = c.Find(vpC15Sel)
+		seen.two = c.Find(vpC15Two)
 		seen.n = c.Len()
 	}()
 	wg.Wait()
@@ -117,7 +121,7 @@ func vpH_C15_schedules() {
 		}
 	}
 	vpAssert(okOrder, "C15.schedules-writers-equal-a-sequential-order")
-	okAll, okSel, okLen := false, false, false
+	okAll, okSel, okLen, okTwo := false, false, false, false
 	for _, s := range states {
 		if vpSameSet(s.all, seen.all) {
 			okAll = true
@@ -128,11 +132,15 @@ func vpH_C15_schedules() {
 		if s.n == seen.n {
 			okLen = true
 		}
+		if vpSameSet(s.two, seen.two) {
+			okTwo = true
+		}
 	}
+	vpAssert(okTwo, "C15.schedules-filter-list-answer-is-a-sequential-state")
 	vpAssert(okAll, "C15.schedules-listing-is-a-sequential-state")
 	vpAssert(okSel, "C15.schedules-index-listing-is-a-sequential-state")
 	vpAssert(okLen, "C15.schedules-len-is-a-sequential-state")
-	for _, l := range [][]*Event{seen.all, final.all} {
+	for _, l := range [][]*Event{seen.all, seen.two, final.all} {
 		vpAssert(len(l) <= capacity, "C15.schedules-at-most-capacity")
 		for _, k := range l {
 			for _, x := range l {
